@@ -7,5 +7,6 @@ RECURSIVE Kinds(_)
 Kinds(items) == IF items = <<>> THEN "" ELSE Head(items).k \o (IF Len(items) > 1 THEN "+" ELSE "") \o Kinds(Tail(items))
 Emit == LET pv == PVerdict(blk) IN
   PrintT(ToJson([pre |-> PreBytes, bytes |-> Bytes(blk), kind |-> pv.kind, fields |-> pv.fields, why |-> pv.why,
-                 desc |-> Kinds(blk.items), over |-> blk.over, cut |-> blk.cut]))
+                 desc |-> Kinds(blk.items), over |-> blk.over, cut |-> blk.cut,
+                 em |-> blk.em, tab |-> pv.d.tab]))
 =============================================================================
